@@ -28,8 +28,12 @@ pub fn run_chunks(
     let mut running: Vec<(u64, Child, PathBuf, Instant)> = vec![];
     let mut results = BTreeMap::new();
     let mut first_bad: Option<u64> = None;
+    // after a few workers have been killed by the watchdog there is no point in feeding it more:
+    // the engine cannot run this tree (a hang outside the scheduler's control); the caller reports
+    // the chunks that did not run as inconclusive
+    let mut killed = 0u32;
     loop {
-        while running.len() < jobs.max(1) && next < nchunks && first_bad.map(|b| next < b).unwrap_or(true) {
+        while running.len() < jobs.max(1) && next < nchunks && first_bad.map(|b| next < b).unwrap_or(true) && killed < 3 {
             let of = scratch.join(format!("chunk-{}.json", next));
             // every worker runs under an address-space limit: a runaway worker must not take the
             // machine (and other checks) down with it
@@ -74,6 +78,7 @@ pub fn run_chunks(
                 let (n, _c, of, _) = running.remove(i);
                 progressed = true;
                 let value = if code == -9 {
+                    killed += 1;
                     json!({"harness_error": "worker killed by the watchdog"})
                 } else {
                     crate::evidence::read_json(&of).unwrap_or(json!({"harness_error": format!("worker for chunk {} wrote no result (exit {})", n, code)}))
